@@ -42,6 +42,8 @@ func main() {
 	only := flag.String("scenario", "", "run only the scenario with exactly this name (child mode)")
 	budgetFlag := flag.Duration("budget", 0, "time budget")
 	cpuprofile := flag.String("cpuprofile", "", "write a CPU profile (child mode)")
+	racePass := flag.Int("race-pass", 0, "parent: run every scenario this many times free-running (binary built with -race)")
+	raceRuns := flag.Int("race-runs", 0, "child of -race-pass")
 	flag.Parse()
 	if *replay != "" {
 		os.Exit(doReplay(*prop, *replay))
@@ -64,6 +66,17 @@ func main() {
 	}
 	if *budgetFlag > 0 {
 		budget = *budgetFlag
+	}
+	if *racePass > 0 {
+		os.Exit(raceParent(*prop, *tier, scs, *racePass))
+	}
+	if *raceRuns > 0 {
+		for _, sc := range scs {
+			if sc.name == *only {
+				raceChild(sc, *raceRuns)
+			}
+		}
+		return
 	}
 	if *only == "" {
 		os.Exit(parent(*prop, *tier, scs, budget, start))
@@ -235,7 +248,7 @@ func parent(prop, tier string, scs []*scenario, budget time.Duration, start time
 			"samples":                       samples,
 		},
 		Assumptions: []string{
-			"interleavings are explored at synchronisation operations (mutex, rwmutex, waitgroup, channel send/receive/close/select, goroutine start/exit); sequentially consistent; plain data races are outside (guarded by a separate free-running -race pass)",
+			"interleavings are explored at synchronisation operations (mutex, rwmutex, waitgroup, channel send/receive/close/select, goroutine start/exit); sequentially consistent; plain data races are outside (guarded by the separate free-running -race pass that the thorough tier appends: coverage.race_guard_pass)",
 			"iterative preemption bounding: all schedules with at most the stated number of preemptions; switches at blocking operations, thread exits, harness yields and select-case choices are free",
 			"virtual time: timers fire only when no thread can run (everything else is faster than any timer)",
 			"operations on objects that only one thread ever touches are not decision points; the set of shared objects is iterated to a fix-point",
